@@ -47,7 +47,7 @@ REQUIRED = ["check_order_irrelevant_for_accept", "valid_only_if", "key_is_from_t
             "isRevoked_no_iff", "isRevoked_error_iff", "getRevocations_found_iff", "getRevocation_never_panics",
             "reported_valid_only_if_store_answered_empty", "store_read_fault_is_never_valid", "any_stored_document_blocks_validity",
             "fact_revocation_lookup_flow", "registered_revocation_is_authentic", "stored_revocations_are_authentic",
-            "registered_revocation_is_permanent", "revoked_only_by_the_credential_issuer", "findIn_never_errors", "fact_register_revocation_sequence",
+            "registered_revocation_is_permanent", "revoked_only_by_the_credential_issuer", "findIn_never_errors", "fact_register_revocation_sequence", "authentic_revocation_registers", "own_revocation_takes_effect",
             # deepening round 3: S2S token handler's presentation checks (auth/api/iam) inside the model
             "presenterIsCredentialSubject_some_iff", "validated_signer_is_subject_of_every_credential", "s2s_validity_is_bounded",
             "s2s_envelope_is_by_one_subject", "s2s_refuses_foreign_credential", "fact_s2s_presentation_checks"]
